@@ -227,3 +227,93 @@ Theorem C14_wait_entry :
               at_wait_point frs = true /\ (forall l, wait_stack c l frs).
 Proof. exact cond_wait_entry. Qed.
 Print Assumptions C14_wait_entry.
+
+(* ------------------------------------------------------------------------------------------
+   Appended: hypotheses discharged from reachability (invariant [WInv] of Sched/WaitInv.v ...
+   WaitProofs.v, corollaries in Sched/WaitThms.v).  [reachable s] (Sched/LockThms.v): s is
+   reached from an initial state by an action list satisfying run_ok; [reachable_ne s]
+   (Sched/WaitProofs.v): additionally no eager start ([Spawn SEager]) is executed along the run. *)
+From Asynkit Require Import Sched.Corr Sched.LockProofs Sched.LockThms Sched.WaitInv Sched.WaitProofs Sched.WaitThms.
+
+(* In every reachable state the waiter heap of every PriorityCondition is well formed (heap
+   invariant, distinct futures) and its futures exist: C14_notify_order without hypotheses. *)
+Theorem C14_notify_order_reachable :
+  forall (s : st) (c n : nat), reachable s ->
+    let s' := notify_p s c n in
+    let order := pq_objs (pq_sort HQ (cpq (getc s c))) in
+    let W := firstn n (filter (fun f => negb (fdone s f)) order) in
+    sorted (plt HQ) (arr (pq_sort HQ (cpq (getc s c)))) /\
+    Permutation order (pq_objs (cpq (getc s c))) /\
+    (forall f, In f W -> fstate_ (getf s' f) = FResult 1) /\
+    (forall f, ~ In f W -> getf s' f = getf s f) /\
+    qwf (cpq (getc s' c)) /\
+    Permutation (arr (cpq (getc s' c))) (arr (cpq (getc s c))) /\
+    pq_sort HQ (cpq (getc s' c)) = pq_sort HQ (cpq (getc s c)) /\
+    (forall c', c' <> c -> getc s' c' = getc s c') /\
+    locks s' = locks s /\ tasks s' = tasks s.
+Proof. exact notify_order_reach. Qed.
+Print Assumptions C14_notify_order_reachable.
+
+Theorem C14_notify_order_interrupt_condition_reachable :
+  forall (s : st) (c n : nat), reachable s ->
+    let s' := notify_i s c n in
+    let W := firstn n (filter (fun f => negb (fdone s f)) (cdq (getc s c))) in
+    (forall f, In f W -> fstate_ (getf s' f) = FResult 0) /\
+    (forall f, ~ In f W -> getf s' f = getf s f) /\
+    conds s' = conds s /\ locks s' = locks s /\ tasks s' = tasks s.
+Proof. exact notify_order_i_reach. Qed.
+Print Assumptions C14_notify_order_interrupt_condition_reachable.
+
+(* The queues of the conditions in reachable states: well-formed heap / duplicate-free deque of
+   existing plain futures that are not waiter futures of any PriorityLock; a condition with a
+   waiter has an existing lock. *)
+Theorem C14_condition_queues_reachable :
+  forall s c, reachable s ->
+    qwf (cpq (getc s c)) /\ NoDup (cdq (getc s c)) /\
+    (forall f, In f (pq_objs (cpq (getc s c))) \/ In f (cdq (getc s c)) ->
+       f < length (futs s) /\ fowner (getf s f) = None /\ ~ lockfut s f /\
+       clock (getc s c) < length (locks s)).
+Proof. exact reach_cond_queues. Qed.
+Print Assumptions C14_condition_queues_reachable.
+
+(* Lock held on every exit, from reachability.  s: any state reachable without eager starts;
+   t: a task suspended (TSusp) with a stack of the wait() family for condition c; Task.__step
+   resumes it in [step_entry s t] with the awaited future's result (exc = None, the future
+   holds a result) or throws exc (a CancelledError subclass while in the retry loop, anything
+   while in `await fut`).  Discharged from the invariants: the C13 invariant, stack_wf, the
+   existence of the lock while in the retry loop, and that a PriorityTask at the `await fut`
+   point is not registered as waiting.  Remaining hypothesis: at the `await fut` point the
+   condition's lock index is in range (true when wait() was entered, not part of an invariant). *)
+Theorem C14_lock_on_exit_reachable :
+  forall (s : st) (t c : nat) (frs : list frame) (k : reply -> coro) (exc : option exn) (s' : st) (r : lres),
+    reachable_ne s -> tcont_ (gett s t) = TSusp frs k ->
+    let l := clock (getc s c) in
+    wait_stack c l frs -> (at_wait_point frs = true -> l < length (locks s)) ->
+    match exc with
+    | None => exists f rest v, frs = InFut f :: rest /\ fstate_ (getf s f) = FResult v
+    | Some e => is_cancel e = true \/ at_wait_point frs = true
+    end ->
+    let se := step_entry s t in
+    resume_stack t frs (match exc with None => RVal 0 | Some e => RExc e end) se = (s', r) ->
+    match r with
+    | LSusp y frs' =>
+        (exists f' rest, y = YFut f' /\ frs' = InFut f' :: rest) /\
+        wait_stack c l frs' /\ stack_wf s' t l frs' /\ at_wait_point frs' = false /\
+        is_pcond frs' = is_pcond frs /\
+        (forall l0, lkind_ (getl s' l0) = lkind_ (getl s l0) /\
+                    llocked (getl s' l0) = llocked (getl s l0) /\
+                    lowner (getl s' l0) = lowner (getl s l0)) /\
+        clock (getc s' c) = l /\ l < length (locks s') /\
+        is_prio_task s' t = is_prio_task s t
+    | LDone rep =>
+        llocked (getl s' l) = true /\
+        (lkind_ (getl s' l) = LPrio -> lowner (getl s' l) = Some t) /\
+        (forall l0, l0 <> l ->
+                    lkind_ (getl s' l0) = lkind_ (getl s l0) /\
+                    llocked (getl s' l0) = llocked (getl s l0) /\
+                    lowner (getl s' l0) = lowner (getl s l0)) /\
+        rep = match last_exc frs (match exc with None => RVal 0 | Some e => RExc e end) with
+              | Some e => RExc e | None => RVal 1 end
+    end.
+Proof. exact lock_on_exit_reach. Qed.
+Print Assumptions C14_lock_on_exit_reachable.
